@@ -57,6 +57,9 @@ type Hub struct {
 
 	hasStarted bool
 
+	// Shutdown was invoked, no new connections should be initiated anymore
+	isShutdown bool
+
 	muxCon        sync.Mutex
 	muxConSetup   sync.Mutex // the double connection check and the registration of a new connection have to be one step
 	muxConAttempt sync.Mutex
@@ -108,6 +111,10 @@ func (h *Hub) Start() {
 
 // close all connections
 func (h *Hub) Shutdown() {
+	h.muxStarted.Lock()
+	h.isShutdown = true
+	h.muxStarted.Unlock()
+
 	h.mdns.Shutdown()
 	for _, c := range h.connections {
 		c.CloseConnection(false, 0, "")
